@@ -52,7 +52,7 @@ theorem crash_recover (A : Algebra St E) (hlaw : Lawful A) : ∀ (h : List (Clie
     · unfold recoverA; rw [hinv.pend, List.append_nil, hinv.same, hk]
   | cons c cs ih =>
     intro fs sofar hinv n
-    obtain ⟨⟨d, p⟩, tmp, backups⟩ := fs
+    obtain ⟨⟨d, p⟩, tmp, backups, linked⟩ := fs
     obtain ⟨hp, hs⟩ := hinv
     simp only at hp hs
     subst hp
@@ -96,7 +96,7 @@ theorem crash_recover (A : Algebra St E) (hlaw : Lawful A) : ∀ (h : List (Clie
       · have htake : (block A sofar (Client.edit e)).take n = block A sofar (Client.edit e) := by
           apply List.take_of_length_le; rw [hlen]; omega
         rw [htake, run_append, acked_append, appended_append]
-        have hinv' : Inv A (run ⟨⟨d, []⟩, tmp, backups⟩ (block A sofar (Client.edit e))) (sofar ++ [e]) := by
+        have hinv' : Inv A (run ⟨⟨d, []⟩, tmp, backups, linked⟩ (block A sofar (Client.edit e))) (sofar ++ [e]) := by
           simp only [block, run, List.foldl_cons, List.foldl_nil, step, List.nil_append]
           exact ⟨rfl, hsnoc⟩
         obtain ⟨⟨kB, b1, b2, b3⟩, ⟨kA, a1, a2, a3⟩⟩ := ih _ _ hinv' (n - 3)
@@ -112,19 +112,22 @@ theorem crash_recover (A : Algebra St E) (hlaw : Lawful A) : ∀ (h : List (Clie
         rw [take_len_append]
       have hroll : replay A [A.rollup (replay A sofar)] = replay A sofar := by
         unfold replay; simp only [List.foldl_cons, List.foldl_nil]; exact hlaw _
-      have hlen : (block A sofar Client.rollover).length = 4 := rfl
+      have hlen : (block A sofar Client.rollover).length = 5 := rfl
       rw [hlen]
       have quiet : ∀ m, acked ((block A sofar Client.rollover).take m) = 0
           ∧ appended ((block A sofar Client.rollover).take m) = 0 := by
         intro m
-        rcases m with _ | _ | _ | _ | _ | m <;> simp [block, acked, appended]
-      rcases Nat.lt_or_ge n 4 with hn | hn
-      · have h0 : n - 4 = 0 := by omega
+        rcases m with _ | _ | _ | _ | _ | _ | m <;> simp [block, acked, appended]
+      rcases Nat.lt_or_ge n 5 with hn | hn
+      · have h0 : n - 5 = 0 := by omega
         rw [h0, List.take_zero, List.append_nil]
         obtain ⟨q1, q2⟩ := quiet n
         rw [q1, q2]
-        rcases n with _ | _ | _ | _ | n
+        rcases n with _ | _ | _ | _ | _ | n
         · simp only [List.take_zero, run, List.foldl_nil]
+          exact ⟨⟨sofar.length, Nat.le_refl _, Nat.le_refl _, by unfold recoverB; (try dsimp only); rw [hs, hk0]⟩,
+                 ⟨sofar.length, Nat.le_refl _, Nat.le_refl _, by unfold recoverA; (try simp only [List.append_nil]); rw [hs, hk0]⟩⟩
+        · simp only [block, List.take, run, List.foldl_cons, List.foldl_nil, step]
           exact ⟨⟨sofar.length, Nat.le_refl _, Nat.le_refl _, by unfold recoverB; (try dsimp only); rw [hs, hk0]⟩,
                  ⟨sofar.length, Nat.le_refl _, Nat.le_refl _, by unfold recoverA; (try simp only [List.append_nil]); rw [hs, hk0]⟩⟩
         · simp only [block, List.take, run, List.foldl_cons, List.foldl_nil, step]
@@ -140,12 +143,12 @@ theorem crash_recover (A : Algebra St E) (hlaw : Lawful A) : ∀ (h : List (Clie
       · have htake : (block A sofar Client.rollover).take n = block A sofar Client.rollover := by
           apply List.take_of_length_le; rw [hlen]; exact hn
         rw [htake, run_append, acked_append, appended_append]
-        have hinv' : Inv A (run ⟨⟨d, []⟩, tmp, backups⟩ (block A sofar Client.rollover)) sofar := by
+        have hinv' : Inv A (run ⟨⟨d, []⟩, tmp, backups, linked⟩ (block A sofar Client.rollover)) sofar := by
           simp only [block, run, List.foldl_cons, List.foldl_nil, step, Option.map_some, List.nil_append]
           exact ⟨rfl, hroll⟩
-        obtain ⟨⟨kB, b1, b2, b3⟩, ⟨kA, a1, a2, a3⟩⟩ := ih _ _ hinv' (n - 4)
-        obtain ⟨q1, q2⟩ := quiet 4
-        have ht4 : (block A sofar Client.rollover).take 4 = block A sofar Client.rollover := rfl
+        obtain ⟨⟨kB, b1, b2, b3⟩, ⟨kA, a1, a2, a3⟩⟩ := ih _ _ hinv' (n - 5)
+        obtain ⟨q1, q2⟩ := quiet 5
+        have ht4 : (block A sofar Client.rollover).take 5 = block A sofar Client.rollover := rfl
         rw [ht4] at q1 q2
         simp only [sofarAfter] at b1 b2 b3 a1 a2 a3 ⊢
         exact ⟨⟨kB, by omega, by omega, b3⟩, ⟨kA, by omega, by omega, a3⟩⟩
@@ -153,7 +156,7 @@ theorem crash_recover (A : Algebra St E) (hlaw : Lawful A) : ∀ (h : List (Clie
 /-- mutant (Appendix B): the temporary is renamed over MANIFEST before it is synced — under
     persistence model (b) the manifest is empty after the crash -/
 theorem rename_before_sync_loses (A : Algebra St E) (e : E) (roll : E) :
-    recoverB A (run (⟨⟨[e], []⟩, none, []⟩ : Fs E) [.linkBackup, .tmpWrite roll, .rename]) = A.empty := by
+    recoverB A (run ({ mani := ⟨[e], []⟩, tmp := none, backups := [] } : Fs E) [.linkBackup, .tmpClear, .tmpWrite roll, .rename]) = A.empty := by
   simp [run, step, recoverB, replay]
 
 end Blue.ManiCrash
